@@ -203,11 +203,16 @@ func VerifGenInclude() {
 	vrtObserve("err", ea != nil)
 	vrtAssume(ea == nil)
 	incPath := "inc.yaml"
-	if vrtChoice("includedIn", 2) == 1 {
-		// an included file of a sub-directory is a project of that directory
-		sub := vrtRoot() + "/w/sub"
+	if k := vrtChoice("includedIn", 2+vrtParam("ODDDIRS", 0)); k >= 1 {
+		// an included file of a sub-directory is a project of that directory - whatever the directory is called
+		// (names that look like a home directory or like a remote reference once they lead a relative path)
+		dir := []string{"", "sub", "~sub", "github.com/acme"}[k]
+		if k >= 2 {
+			cls += "@" + []string{"", "", "tilde-directory", "remote-looking-directory"}[k]
+		}
+		sub := vrtRoot() + "/w/" + dir
 		genFilesIn(sub)
-		incPath = "sub/inc.yaml"
+		incPath = dir + "/inc.yaml"
 		var es error
 		pa, es = genLoadIn(sub, genDocCopy(a))
 		vrtAssume(es == nil)
